@@ -1,6 +1,7 @@
 package checks
 
 import (
+	"encoding/json"
 	"os"
 
 	"verif/sim/core"
@@ -36,7 +37,12 @@ func WorkerEnv(id string) []string {
 func BuildInfo() map[string]interface{} {
 	out := map[string]interface{}{}
 	if p := os.Getenv("VERIF_BUILD_INFO"); p != "" {
-		out["build_info"] = p
+		var v interface{}
+		if json.Unmarshal([]byte(p), &v) == nil {
+			out["instrumentation"] = v
+		} else {
+			out["instrumentation"] = p
+		}
 	}
 	return out
 }
